@@ -503,6 +503,8 @@ def run_native(mods, harness, params, inputs):
         harness(env, **params)
     except ReplayStop as e:
         err = "stop: %s" % e
+        if "hangs" in str(e):
+            env.failed.append(("native-hang", None, str(e)))
     except Exception as e:
         err = "harness raised %r" % (e,)
         env.last_exc = e
